@@ -132,7 +132,7 @@ func c17one(c *wk.Ctx, idx int, cat map[string]string, code int32, text string) 
 	exp := rpcerr.Classify(text)
 	var e error
 	pan, pm, st := wk.Guard(func() { e = mtproto.RpcErrorToNative(&objects.RpcError{ErrorCode: code, ErrorMessage: text}) })
-	zone := [...]string{"plain", "strict", "dontcare"}[exp.Zone]
+	zone := [...]string{"plain", "strict", "dontcare", "nonnumeric"}[exp.Zone]
 	c.Count("zone."+zone, 1)
 	c.Distinct(zone, text)
 	if idx%400 == 0 {
@@ -171,6 +171,10 @@ func c17one(c *wk.Ctx, idx int, cat map[string]string, code int32, text string) 
 			if r.Description != want {
 				c.Viol("C17", idx, "strict/description/"+exp.Message, fmt.Sprintf("%q: description %q, want %q", text, r.Description, want), text)
 			}
+		}
+	case rpcerr.NonNumeric:
+		if r.Message != text || r.AdditionalInfo != nil {
+			c.Viol("C17", idx, "nonnumeric/message", fmt.Sprintf("%q has no numeric parameter to replace: message %q parameter %v (the server's text is lost)", text, r.Message, r.AdditionalInfo), text)
 		}
 	case rpcerr.DontCare:
 		okMsg := r.Message == text
